@@ -393,6 +393,25 @@ def run(name, runs, budget):
             "classes": [c[:160] for c in cls], "wall_s": round(time.time() - t0, 1), "summary": out.strip().split("\n")[-1][:200]}
 
 
+
+mut("c01_revert_handoff_same_scheduler", "C01", "include/abti_ythread.h",
+    """                p_self->thread.p_parent == p_joiner->thread.p_parent &&
+""", "", "reverts fix 0173e94: a terminating ULT jumps into a joiner that belongs to another scheduler")
+mut("c18_revert_ktable_creation_retry", "C18", "include/abti_key.h",
+    """                if (p_ktable == NULL) {
+                    /* The lock holder failed to allocate the table and has
+                     * released the lock.  Try once more. */
+                    continue;
+                }
+""", "", "reverts fix 2249b12: a setter waiting for the key table goes on with NULL when its creation failed")
+mut("c18_revert_add_sched_keeps_scheduler", "C18", "thread.c",
+    """                    int ret = ABTI_ktable_set_unsafe(p_global, p_local,
+                                                     &p_keytable,
+                                                     &g_thread_sched_key, NULL);
+                    ABTI_ASSERT(ret == ABT_SUCCESS);
+                    (void)ret;
+""", "", "reverts fix 2ad1c5c: a failed ABT_pool_add_sched frees an automatic scheduler")
+
 def main():
     ap = argparse.ArgumentParser()
     ap.add_argument("cmd")
